@@ -739,6 +739,8 @@ def c06(out):
 @prop("C04")
 def c04(out):
     def nt(r):
+        if r["ev"] == "textchanges_tok":
+            return len(r["old_tok"]) > 65536
         return r["ntok_old"] >= 2 and r["ntok_new"] >= 2 and any(c[0] != 0 for c in r["all"])
     calls_family(out, "c04", {"recon_old", "recon_new", "index_shape", "index_seq", "iter_agree", "panic"}, nt,
                  "TextDiff over 5 tokenizers x 3 algorithms x {str,[u8]} on all pairs of short strings over the interesting-character "
